@@ -8,7 +8,7 @@ import (
 // Cond is one `{ ... }` / `!{ ... }` / named-acl term of an `if` clause.
 type Cond struct {
 	Neg    bool
-	Kind   string // pathid | base | authok | pathbeg | meth | unknown
+	Kind   string // pathid | base | authok | pathbeg | meth | varfound | unknown
 	Method string // str beg dir reg bool ...
 	ICase  bool
 	Pats   []string
@@ -17,7 +17,7 @@ type Cond struct {
 
 // AuthRule is one http-request rule that takes part in external authentication.
 type AuthRule struct {
-	Act   string // deny | intercept | guard-deny | guard-redirect | service
+	Act   string // deny | intercept | guard-deny | guard-redirect | service | setvar | setheader
 	Name  string // auth backend name of an intercept
 	Args  []string
 	Conds []Cond
@@ -100,6 +100,9 @@ func parseACL(t []string) Cond {
 	case "method":
 		c.Kind, c.Method = "meth", "str"
 	default:
+		if strings.HasPrefix(t[0], "var(") && len(t) == 3 && t[1] == "-m" && t[2] == "found" {
+			c.Kind, c.Method = "varfound", "found"
+		}
 		return c
 	}
 	i := 1
@@ -161,9 +164,13 @@ func ParseAuthRules(lines []string) []AuthRule {
 			r.Act = "deny"
 		case t[1] == "redirect" && guard:
 			r.Act = "guard-redirect"
+		case strings.HasPrefix(t[1], "set-var("):
+			r.Act, r.Args = "setvar", t[1:ifAt]
+		case t[1] == "set-header":
+			r.Act, r.Args = "setheader", t[1:ifAt]
 		case t[1] == "use-service":
 			// answered by a service of the proxy (cors preflight ...): never reaches the servers
-			r.Act = "service"
+			r.Act, r.Args = "service", t[2:ifAt]
 		case t[1] == "lua.auth-intercept" && ifAt >= 3:
 			r.Act, r.Name, r.Args = "intercept", t[2], t[3:ifAt]
 		default:
@@ -271,6 +278,7 @@ func (c Cond) eval(q Request, authOK bool) (bool, bool) {
 // Verdict of RunAuth.
 type Verdict struct {
 	Served   bool
+	Proxy    bool     // stopped by a use-service: answered by the proxy itself
 	By       string   // raw text of the rule that stopped the request
 	Checked  []string // names of the intercepts that ran, in order
 	Unknowns int      // conditions that could not be evaluated (taken as true)
@@ -301,6 +309,7 @@ func RunAuth(rules []AuthRule, q Request, ok func(name string) bool) Verdict {
 		switch r.Act {
 		case "deny", "guard-deny", "guard-redirect", "service":
 			v.By = r.Raw
+			v.Proxy = r.Act == "service"
 			return v
 		case "intercept":
 			authOK = ok(r.Name)
